@@ -47,7 +47,7 @@ KEYWORD_PREFIX_DOCS = [
 def gen_cases(rng, tier):
     """list of (case_line, expected canon or None, kind, group) ; group ties the layouts of one document together"""
     q = tier == "quick"
-    n_docs = 700 if q else 10000
+    n_docs = 700 if q else 25000
     n_frag = 2500 if q else 60000
     cases = []
     for t, c in KEYWORD_PREFIX_DOCS:
